@@ -80,6 +80,19 @@ func genC09(tier string, r *rng, emit func(string)) {
 			}
 		}
 	}
+	// products that must be refused (misfitting extents) leave every operand as it was - the
+	// dispatching Dot undoes its temporary transposition of the matrix also when MatVecMul refuses
+	for _, dt := range []string{"f64", "f32"} {
+		for _, c := range []string{
+			"new:rm:2,3:1;new:rm:3:2;dot:1:0:safe", "new:rm:2,3:1;new:rm:4:2;dot:1:0:safe", "new:rm:2,3:1;new:rm:2:2;dot:0:1:safe",
+			"new:rm:2,3:1;new:rm:2,3:2;dot:0:1:safe",
+			"new:rm:2,3:1;new:rm:3:2;new:rm:5:50;dot:1:0:reuse.2", "new:rm:2,3:1;new:rm:3:2;new:rm:3:50;dot:1:0:incr.2",
+			"new:rm:3,2:1;T:0:1,0;new:rm:3:2;dot:1:0:safe", "new:rm:2,3:1;new:rm:3:2;dot:1:0:safe;lin:matvec:0:1:safe",
+			"new:rm:2,3:1;new:rm:2:2;new:rm:2:50;dot:1:0:reuse.2;dot:1:0:safe",
+		} {
+			emit(fmt.Sprintf("prog %s %s", dt, c))
+		}
+	}
 	// inner dimensions and lengths around the block sizes of unrolled / vectorised loops
 	for _, dt := range []string{"f64", "f32"} {
 		for _, k := range []int{1, 2, 3, 4, 5, 7, 8, 9, 15, 16, 17, 31, 32, 33} {
